@@ -14,7 +14,7 @@ claims = {
    text="The rule table is extracted from the AST of doOptimize; for each of the 16 rules a fusion lemma is discharged: the REAL exec case bodies of the window and of the fused instruction, run from one symbolic machine state, end in the same stack, locals, globals, next instruction and error outcome (impure callees: same calls with equal arguments, determinism). Covers all states and operand values. Not covered: that compile() keeps jump spans stable under re-optimisation (compiler side, DESIGN 5.2 span stability).",
    technique=TECH),
  'C03': dict(level='proof', design='5.3',
-   text="Every function that installs a recover handler (VM.run, VM.Func and through it Call, parse, compiler.run) is verified with the handler body executed from the state of each panic raised on the protected path (what a panicking callee may have modified is unknown there); `nopanic` on such a function therefore means that no Go panic escapes it, and code before the defer is unprotected. The error builder (btErr, pos.String/info) is total. Stage and glue functions proved panic-free (every indexing, slicing, nil dereference and callee outside a handler is an obligation): Eval, Load, loadPackage, loadFile, loadImports, rawLoadPackage, rawLoadFile, checkConstraint, joinFiles, compilePkgs, treeDump, codeDump, instruction.String (against keyOps: which operand of which opcode is a globals index), the hash-table operations; token.Append rejects nil children. Repaired defects found by these obligations: D6 (btErr), D7 (compile handler, nil operand), D8 (import cycle), D20 (nil file system), D21 (invalid import path literal). NOT covered: termination of tokenize/parse/load/compile (no variants; tokenize sits on text/scanner and is assumed). Assumed and listed in the evidence: tree-shape facts where the loader walks a tree (A-WF), A-POS/A-KEY/A-SLOTS on emitted code, run options and natives do not panic, treeSort/Type.str/token.String/parser.Statement trusted not to panic, exec's own internal state at panic time (made irrelevant by the total error builder, except the listed position-validity assumption A-POS).",
+   text="Every function that installs a recover handler (VM.run, VM.Func and through it Call, parse, compiler.run) is verified with the handler body executed from the state of each panic raised on the protected path (what a panicking callee may have modified is unknown there); `nopanic` on such a function therefore means that no Go panic escapes it, and code before the defer is unprotected. The error builder (btErr, pos.String/info) is total. Stage and glue functions proved panic-free (every indexing, slicing, nil dereference and callee outside a handler is an obligation): Eval, Load, loadPackage, loadFile, loadImports, rawLoadPackage, rawLoadFile, checkConstraint, joinFiles, compilePkgs, treeDump, codeDump, instruction.String (against keyOps: which operand of which opcode is a globals index), the hash-table operations; token.Append rejects nil children. Repaired defects found by these obligations: D6 (btErr), D7 (compile handler, nil operand), D8 (import cycle), D20 (nil file system), D21 (invalid import path literal), D24 (unbounded parser recursion: fatal stack overflow), D25 (Type.str), D26 (position packing). NOT covered: termination of tokenize/parse/load/compile (no variants; tokenize sits on text/scanner and is assumed). Assumed and listed in the evidence: tree-shape facts where the loader walks a tree (A-WF), A-POS/A-KEY/A-SLOTS on emitted code, run options and natives do not panic, treeSort/token.String/parser.Statement trusted not to panic, exec's own internal state at panic time (made irrelevant by the total error builder, except the listed position-validity assumption A-POS).",
    technique=TECH + "; recover handlers executed symbolically from every panic state"),
  'C04': dict(level='proof', design='5.4',
    text="Contracts on the numeric core of value.go (all operator methods, comparisons, assign, convert) state Go's fixed-width semantics row by row (operand types x operator) with symbolic operands; the exec cases of the arithmetic/typing instructions (INCDEC, LOCALINCDEC, NEGATE, BITCOMPLEMENT, CAST, CONVERT, LOCALSET, GLOBALSET) and the variadic packing of call() are proved against them. Carrier lemmas (int<->float64) are proved each run with real IEEE semantics. The compiler's CAST guard list for typed declarations is checked by a table obligation (D4 repaired).",
